@@ -101,6 +101,16 @@ def get_scoped_setup_inputs(
                     continue
                 # if it is effect free, we recurse on it's operands
                 vals_to_inspect.extend(val.owner.operands)
+                # values used inside the regions of the op (e.g. yielded by an scf.if) are inputs as well,
+                # unless they are defined inside the op itself
+                for nested_op in val.owner.walk():
+                    if nested_op is val.owner:
+                        continue
+                    for nested_val in nested_op.operands:
+                        nested_owner = nested_val.owner
+                        defining_op = nested_owner.parent_op() if isinstance(nested_owner, Block) else nested_owner
+                        if defining_op is None or not val.owner.is_ancestor(defining_op):
+                            vals_to_inspect.append(nested_val)
                 # and note the operation down as one that computes our input variables
                 inputs.append(val.owner)
             else:
